@@ -166,8 +166,9 @@ theorem specRecord_stripEol (o : Opt) (input : Bytes) (hd : o.delimiter = [o.eol
 /-! ## the buffered algorithm is the line specification -/
 
 /-- **C05, the buffered algorithm, every input.**  With the EOL as delimiter and none of
-    `-s -t -g -p -r` (the dispatcher of `main` does not let them through to `-l`; each of them
-    would change what `cut_str` does to the record while `specLines` ignores them), `cut_lines`
+    `-s -t -g -p -r` (`parse_args` ACCEPTS them together with `-l` and the buffered `cut_lines` obeys
+    them — `-l 2,1 -r X` prints `bXa` — while `specLines` ignores them; C05 quantifies over
+    `{--no-join, -z, -m}` only, so they are hypotheses here, not facts about `main`), `cut_lines`
     is `specLines` — output and status — on every valid UTF-8 input (the empty one and a lone EOL
     included), for every bounds list: fillers, fallbacks, negative and reordered indexes, `-m`,
     `--no-join`. -/
